@@ -399,6 +399,8 @@ pub fn gen_c04(rng: &mut Rng, tier: Tier) -> C04Plan {
             continue;
         }
         let first = i == 0 && !start_without_i;
+        // the same size may be written with another (equivalent) size code in every picture
+        let flq = requalify(rng, &fl, w, h);
         let (spec, note, transit, io): (PicSpec, String, Vec<Transit>, Option<(u64, SrcFault)>) = if first || (!have_ref && r < 60) || r < 22 {
             if sor && !first && rng.chance(1, 6) {
                 // a size change, valid at an intra picture (Sorenson mode; standard mode
@@ -409,18 +411,19 @@ pub fn gen_c04(rng: &mut Rng, tier: Tier) -> C04Plan {
                 w = nw;
                 h = nh;
             }
-            let s = gen_textured_intra(rng, &cfg, fl.clone(), w, h, tr);
+            let flq = requalify(rng, &fl, w, h);
+            let s = gen_textured_intra(rng, &cfg, flq.clone(), w, h, tr);
             (s, "I".into(), vec![], None)
         } else if r < 40 && sor {
             let style = rng.below(4) as u8;
-            (gen_signed_p(rng, &cfg, fl.clone(), PType::Disposable, w, h, tr, style), format!("D (style {style})"), vec![], None)
+            (gen_signed_p(rng, &cfg, flq.clone(), PType::Disposable, w, h, tr, style), format!("D (style {style})"), vec![], None)
         } else if r < 75 {
             let style = *rng.pick(&[0u8, 0, 1, 1, 2, 3]);
-            (gen_signed_p(rng, &cfg, fl.clone(), PType::P, w, h, tr, style), format!("P (style {style})"), vec![], None)
+            (gen_signed_p(rng, &cfg, flq.clone(), PType::P, w, h, tr, style), format!("P (style {style})"), vec![], None)
         } else if r < 90 {
             // rejected picture: corrupted in transit
             let pt = *rng.pick(if sor { &[PType::I, PType::P, PType::Disposable][..] } else { &[PType::I, PType::P][..] });
-            let s = if pt == PType::I { gen_textured_intra(rng, &cfg, fl.clone(), w, h, tr) } else { gen_signed_p(rng, &cfg, fl.clone(), pt, w, h, tr, 2) };
+            let s = if pt == PType::I { gen_textured_intra(rng, &cfg, flq.clone(), w, h, tr) } else { gen_signed_p(rng, &cfg, flq.clone(), pt, w, h, tr, 2) };
             let (b, m) = encode(&s);
             let t = match rng.below(3) {
                 0 => vec![Transit::Truncate { len: rng.usize((m.header_end / 8).max(1)) }], // truncated in the header
@@ -431,7 +434,7 @@ pub fn gen_c04(rng: &mut Rng, tier: Tier) -> C04Plan {
         } else {
             // rejected picture: I/O failure while reading it
             let pt = if have_ref && rng.bool() { PType::P } else { PType::I };
-            let s = if pt == PType::I { gen_textured_intra(rng, &cfg, fl.clone(), w, h, tr) } else { gen_signed_p(rng, &cfg, fl.clone(), pt, w, h, tr, 2) };
+            let s = if pt == PType::I { gen_textured_intra(rng, &cfg, flq.clone(), w, h, tr) } else { gen_signed_p(rng, &cfg, flq.clone(), pt, w, h, tr, 2) };
             let (b, _) = encode(&s);
             let k = *rng.pick(&SrcFault::HARD);
             (s, format!("{pt:?} with I/O failure"), vec![], Some((1 + rng.below(b.len() as u64), k)))
